@@ -1,89 +1,71 @@
-import DustVerif.Proofs.WireSize
+import DustVerif.Proofs.WireAccessor
 /-!
-Property C07 (RTPS part): `RtpsMessageRead::try_from` and the submessage parsers are total.
+Property C07 (RTPS part): `RtpsMessageRead::try_from` and the submessage parsers are total, and the decoded value
+is bounded by the input.
 
-`decode` is the decoder as it is in the repository, `decodeFixed` the decoder with fixes/D5.patch
-(Model/Wire.lean, `decodeG false` / `decodeG true`).  Octets are `Nat`; the theorems quantify over every
-`List Nat`, so in particular over every list of real octets (`C07_rtps_total_fixed_u8`).
+`decode` is the decoder of the repository `main` (bdfece3, D5 fix committed) with fixes/D-wire-3.patch and
+fixes/D-wire-4.patch (`decodeG Cfg.fixed`, Model/Wire.lean); `decodeMain` is `main` without those two patches,
+`decodeOrig` the tree before the D5 fix.  Octets are `Nat`; the theorems quantify over every `List Nat`, so in
+particular over every list of real octets (`C07_rtps_total_u8`).
 
-The code as it is can panic (D5, D-wire-1): `C07_rtps_numbits_counterexample`,
-`C07_rtps_fragment_overflow_counterexample` (both replayed on the real code by the check).  What is proved
-for it: the fragment-number-set reader is the only panic source and panics exactly under `FragSetPanics`
-(`C07_rtps_total_partial`, `C07_rtps_fragset_panic_iff`).
+FULL for the delivered decoder: `C07_rtps_total` (never panics), `C07_rtps_size` (linear bound, explicit
+constants, INFO_REPLY included), `C07_rtps_submessage_count`, `C07_rtps_accessors_total` (the accessors `set()` of
+every decoded set are total).  The theorems about `decodeOrig` / `decodeMain` are kept as regression witnesses of
+the repaired defects D5, D-wire-1, D-wire-3, D-wire-4 (all replayed on the real code of those trees).
 -/
 namespace DustVerif.Wire
 open Outcome
 
-/-- FULL (for the decoder with fixes/D5.patch): for every octet string the result is `ok` or `err`. -/
-theorem C07_rtps_total_fixed (b : List Nat) : (∃ m, decodeFixed b = ok m) ∨ (∃ e, decodeFixed b = err e) := by
-  have hnp : decodeFixed b ≠ .panic := by
-    unfold decodeFixed decodeG
-    have := decodeLoop_guarded_np MAX_SUBMESSAGES (b.drop 20)
+/-- FULL, for every tree that contains the D5 fix (in particular `main` and `main` + patches): no panic. -/
+theorem C07_rtps_total_any (c : Cfg) (hd : c.d5 = true) (b : List Nat) :
+    (∃ m, decodeG c b = ok m) ∨ (∃ e, decodeG c b = err e) := by
+  have hnp : decodeG c b ≠ .panic := by
+    unfold decodeG
+    have := decodeLoop_guarded_np c hd MAX_SUBMESSAGES (b.drop 20)
     repeat' split
     all_goals simp_all
-  cases h : decodeFixed b with
+  cases h : decodeG c b with
   | ok m => exact Or.inl ⟨m, rfl⟩
   | err e => exact Or.inr ⟨e, rfl⟩
   | panic => exact absurd h hnp
 
-/-- the same statement over real octets -/
-theorem C07_rtps_total_fixed_u8 (b : List UInt8) :
-    (∃ m, decodeFixed (b.map UInt8.toNat) = ok m) ∨ (∃ e, decodeFixed (b.map UInt8.toNat) = err e) :=
-  C07_rtps_total_fixed _
+/-- FULL: for every octet string the decoder returns a message or an error, never panics. -/
+theorem C07_rtps_total (b : List Nat) : (∃ m, decode b = ok m) ∨ (∃ e, decode b = err e) :=
+  C07_rtps_total_any Cfg.fixed rfl b
 
-/-- PARTIAL (decoder as it is).  Excluded: datagrams that contain, at some offset, a NACK_FRAG submessage
-    header (id 0x12) whose fragment-number set has `numBits > 256` or a set bit denoting a fragment number
-    above `u32::MAX` (`FragSetPanics`, findings D5 and D-wire-1).  Every panic of the decoder is of that kind:
-    no other slice index, subtraction, addition or cast in `RtpsMessageRead::try_from` and the parsers can fail. -/
-theorem C07_rtps_total_partial (b : List Nat) (h : decode b = .panic) :
-    ∃ pre fl l0 l1 rest, b = pre ++ 0x12 :: fl :: l0 :: l1 :: rest ∧
-      FragSetPanics (decide (fl % 2 = 1)) (rest.drop 16) := by
-  unfold decode decodeG at h
+/-- the same statement over real octets -/
+theorem C07_rtps_total_u8 (b : List UInt8) :
+    (∃ m, decode (b.map UInt8.toNat) = ok m) ∨ (∃ e, decode (b.map UInt8.toNat) = err e) :=
+  C07_rtps_total _
+
+/-- FULL allocation bound, INFO_REPLY included (needs fixes/D-wire-3.patch, `c.ext`): the octets held by the
+    decoded value (payloads, parameter values, 24 per locator) plus 4 per decoded submessage plus the 20 header
+    octets never exceed the input length. -/
+theorem C07_rtps_size_any (c : Cfg) (he : c.ext = true) (b : List Nat) (m : Msg) (h : decodeG c b = ok m) :
+    subsSize m.subs + 4 * m.subs.length + 20 ≤ b.length := by
+  unfold decodeG at h
   split at h
   · simp at h
   · split at h
     · simp at h
     · split at h
+      · rename_i ss hl
+        simp at h
+        subst h
+        obtain ⟨_, _, _, h4⟩ := decodeLoop_bounds c _ _ _ hl
+        have := h4 (Or.inl he)
+        rw [List.length_drop] at this
+        show subsSize ss + 4 * ss.length + 20 ≤ b.length
+        omega
       · simp at h
       · simp at h
-      · rename_i hl
-        obtain ⟨pre, fl, l0, l1, rest, he, hp⟩ := decodeLoop_false_panic _ _ hl
-        refine ⟨b.take 20 ++ pre, fl, l0, l1, rest, ?_, hp⟩
-        rw [List.append_assoc, ← he, List.take_append_drop]
 
-/-- consequence: a datagram without the octet 0x12 is decoded without panic by the code as it is -/
-theorem C07_rtps_total_without_nackfrag (b : List Nat) (h : 0x12 ∉ b) :
-    (∃ m, decode b = ok m) ∨ (∃ e, decode b = err e) := by
-  cases hd : decode b with
-  | ok m => exact Or.inl ⟨m, rfl⟩
-  | err e => exact Or.inr ⟨e, rfl⟩
-  | panic =>
-    obtain ⟨pre, fl, l0, l1, rest, he, _⟩ := C07_rtps_total_partial b hd
-    exact absurd (by rw [he]; simp) h
+theorem C07_rtps_size (b : List Nat) (m : Msg) (h : decode b = ok m) :
+    subsSize m.subs + 4 * m.subs.length + 20 ≤ b.length :=
+  C07_rtps_size_any Cfg.fixed rfl b m h
 
-/-- the panic condition of `FragmentNumberSet::try_read_from_bytes` is exact -/
-theorem C07_rtps_fragset_panic_iff (le : Bool) (d : List Nat) :
-    fnsetRead false le d = .panic ↔ FragSetPanics le d :=
-  fnsetRead_false_panic_iff le d
-
-/-- D5 witness: header + NACK_FRAG with numBits = 300 (72 + 12 octets) -/
-def d5Witness : List Nat :=
-  [82, 84, 80, 83, 2, 3, 9, 8, 3, 3, 3, 3, 3, 3, 3, 3, 3, 3, 3, 3, 18, 1, 60, 0, 1, 2, 3, 4, 6, 7, 8, 9, 0, 0, 0, 0, 4, 0, 0,
-   0, 2, 0, 0, 0, 44, 1, 0, 0, 0, 0, 0, 128, 0, 0, 0, 0, 0, 0, 0, 0, 0, 0, 0, 0, 0, 0, 0, 0, 0, 0, 0, 0, 0, 0, 0, 0, 0, 0,
-   0, 0, 3, 0, 0, 0]
-set_option maxRecDepth 100000 in
-theorem C07_rtps_numbits_counterexample : decode d5Witness = .panic ∧ decodeFixed d5Witness ≠ .panic := by
-  decide
-
-/-- D-wire-1 witness: NACK_FRAG with base 0xFFFFFFFF, numBits 2, bit 1 set -/
-def dw1Witness : List Nat :=
-  [82, 84, 80, 83, 2, 3, 9, 8, 3, 3, 3, 3, 3, 3, 3, 3, 3, 3, 3, 3, 18, 1, 32, 0, 1, 2, 3, 4, 6, 7, 8, 9, 0, 0, 0, 0, 4, 0, 0,
-   0, 255, 255, 255, 255, 2, 0, 0, 0, 0, 0, 0, 192, 3, 0, 0, 0]
-theorem C07_rtps_fragment_overflow_counterexample : decode dw1Witness = .panic := by
-  decide
-
-/-- number of decoded submessages: at most MAX_SUBMESSAGES and at most one per 4 octets after the header -/
-theorem C07_rtps_submessage_count (g : Bool) (b : List Nat) (m : Msg) (h : decodeG g b = ok m) :
+/-- number of decoded submessages: at most MAX_SUBMESSAGES and at most one per 4 octets after the header (any tree) -/
+theorem C07_rtps_submessage_count (c : Cfg) (b : List Nat) (m : Msg) (h : decodeG c b = ok m) :
     m.subs.length ≤ MAX_SUBMESSAGES ∧ 4 * m.subs.length + 20 ≤ b.length := by
   unfold decodeG at h
   split at h
@@ -95,15 +77,87 @@ theorem C07_rtps_submessage_count (g : Bool) (b : List Nat) (m : Msg) (h : decod
       · rename_i ss hl
         simp at h
         subst h
-        obtain ⟨h1, h2, _, _⟩ := decodeLoop_bounds g _ _ _ hl
+        obtain ⟨h1, h2, _, _⟩ := decodeLoop_bounds c _ _ _ hl
         rw [List.length_drop] at h2
         exact ⟨h1, by simp; omega⟩
       · simp at h
       · simp at h
 
-/-- PARTIAL allocation bound.  Excluded: messages in which an INFO_REPLY was decoded (finding D-wire-3).
-    Otherwise the octets held by the decoded value (payloads, parameter values) never exceed the input length. -/
-theorem C07_rtps_size_partial (g : Bool) (b : List Nat) (m : Msg) (h : decodeG g b = ok m)
+/-- FULL (needs fixes/D-wire-4.patch and the D5 fix): the accessors `SequenceNumberSet::set()` /
+    `FragmentNumberSet::set()` of every set in every decoded message are total. -/
+theorem C07_rtps_accessors_total_any (c : Cfg) (hd : c.d5 = true) (hc : c.snchk = true) (b : List Nat) (m : Msg)
+    (h : decodeG c b = ok m) : ∀ s ∈ m.subs, s.accessorsOk := by
+  unfold decodeG at h
+  split at h
+  · simp at h
+  · split at h
+    · simp at h
+    · split at h
+      · rename_i ss hl
+        simp at h
+        subst h
+        exact decodeLoop_all c Sub.accessorsOk (decodeSub_accessors c hd hc) _ _ _ hl
+      · simp at h
+      · simp at h
+
+theorem C07_rtps_accessors_total (b : List Nat) (m : Msg) (h : decode b = ok m) : ∀ s ∈ m.subs, s.accessorsOk :=
+  C07_rtps_accessors_total_any Cfg.fixed rfl rfl b m h
+
+/-! ### regression witnesses and what was proved about the earlier trees -/
+
+/-- tree before the D5 fix: every panic of the decoder comes from a NACK_FRAG submessage header (id 0x12) whose
+    fragment-number set has `numBits > 256` or a set bit denoting a fragment number above `u32::MAX`
+    (`FragSetPanics`, D5 and D-wire-1) -/
+theorem C07_rtps_total_partial (b : List Nat) (h : decodeOrig b = .panic) :
+    ∃ pre fl l0 l1 rest, b = pre ++ 0x12 :: fl :: l0 :: l1 :: rest ∧
+      FragSetPanics (decide (fl % 2 = 1)) (rest.drop 16) := by
+  unfold decodeOrig decodeG at h
+  split at h
+  · simp at h
+  · split at h
+    · simp at h
+    · split at h
+      · simp at h
+      · simp at h
+      · rename_i hl
+        obtain ⟨pre, fl, l0, l1, rest, he, hp⟩ := decodeLoop_false_panic Cfg.orig rfl rfl _ _ hl
+        refine ⟨b.take 20 ++ pre, fl, l0, l1, rest, ?_, hp⟩
+        rw [List.append_assoc, ← he, List.take_append_drop]
+
+theorem C07_rtps_total_without_nackfrag (b : List Nat) (h : 0x12 ∉ b) :
+    (∃ m, decodeOrig b = ok m) ∨ (∃ e, decodeOrig b = err e) := by
+  cases hd : decodeOrig b with
+  | ok m => exact Or.inl ⟨m, rfl⟩
+  | err e => exact Or.inr ⟨e, rfl⟩
+  | panic =>
+    obtain ⟨pre, fl, l0, l1, rest, he, _⟩ := C07_rtps_total_partial b hd
+    exact absurd (by rw [he]; simp) h
+
+/-- the panic condition of the unguarded `FragmentNumberSet::try_read_from_bytes` is exact -/
+theorem C07_rtps_fragset_panic_iff (le : Bool) (d : List Nat) :
+    fnsetRead false le d = .panic ↔ FragSetPanics le d :=
+  fnsetRead_false_panic_iff le d
+
+/-- D5 witness: header + NACK_FRAG with numBits = 300 (84 octets) -/
+def d5Witness : List Nat :=
+  [82, 84, 80, 83, 2, 3, 9, 8, 3, 3, 3, 3, 3, 3, 3, 3, 3, 3, 3, 3, 18, 1, 60, 0, 1, 2, 3, 4, 6, 7, 8, 9, 0, 0, 0, 0, 4, 0, 0,
+   0, 2, 0, 0, 0, 44, 1, 0, 0, 0, 0, 0, 128, 0, 0, 0, 0, 0, 0, 0, 0, 0, 0, 0, 0, 0, 0, 0, 0, 0, 0, 0, 0, 0, 0, 0, 0, 0, 0,
+   0, 0, 3, 0, 0, 0]
+set_option maxRecDepth 100000 in
+theorem C07_rtps_numbits_counterexample :
+    decodeOrig d5Witness = .panic ∧ decodeMain d5Witness ≠ .panic ∧ decode d5Witness ≠ .panic := by
+  decide
+
+/-- D-wire-1 witness: NACK_FRAG with base 0xFFFFFFFF, numBits 2, bit 1 set -/
+def dw1Witness : List Nat :=
+  [82, 84, 80, 83, 2, 3, 9, 8, 3, 3, 3, 3, 3, 3, 3, 3, 3, 3, 3, 3, 18, 1, 32, 0, 1, 2, 3, 4, 6, 7, 8, 9, 0, 0, 0, 0, 4, 0, 0,
+   0, 255, 255, 255, 255, 2, 0, 0, 0, 0, 0, 0, 192, 3, 0, 0, 0]
+theorem C07_rtps_fragment_overflow_counterexample :
+    decodeOrig dw1Witness = .panic ∧ decode dw1Witness ≠ .panic := by
+  decide
+
+/-- trees without fixes/D-wire-3.patch: the linear bound holds only when no INFO_REPLY was decoded -/
+theorem C07_rtps_size_partial (c : Cfg) (b : List Nat) (m : Msg) (h : decodeG c b = ok m)
     (hr : ∀ s ∈ m.subs, s.isReply = false) : subsSize m.subs ≤ b.length := by
   unfold decodeG at h
   split at h
@@ -114,17 +168,16 @@ theorem C07_rtps_size_partial (g : Bool) (b : List Nat) (m : Msg) (h : decodeG g
       · rename_i ss hl
         simp at h
         subst h
-        obtain ⟨_, _, _, h4⟩ := decodeLoop_bounds g _ _ _ hl
-        have := h4 hr
+        obtain ⟨_, _, _, h4⟩ := decodeLoop_bounds c _ _ _ hl
+        have := h4 (Or.inr hr)
         rw [List.length_drop] at this
         show subsSize ss ≤ b.length
         omega
       · simp at h
       · simp at h
 
-/-- general bound (INFO_REPLY included): every single submessage holds at most the input length, so the whole
-    value holds at most (number of submessages) × (input length) ≤ len²/4 octets -/
-theorem C07_rtps_size_each (g : Bool) (b : List Nat) (m : Msg) (h : decodeG g b = ok m) :
+/-- any tree: every single submessage holds at most the input length -/
+theorem C07_rtps_size_each (c : Cfg) (b : List Nat) (m : Msg) (h : decodeG c b = ok m) :
     ∀ s ∈ m.subs, s.size ≤ b.length := by
   unfold decodeG at h
   split at h
@@ -135,7 +188,7 @@ theorem C07_rtps_size_each (g : Bool) (b : List Nat) (m : Msg) (h : decodeG g b 
       · rename_i ss hl
         simp at h
         subst h
-        obtain ⟨_, _, h3, _⟩ := decodeLoop_bounds g _ _ _ hl
+        obtain ⟨_, _, h3, _⟩ := decodeLoop_bounds c _ _ _ hl
         intro s hs
         have := h3 s hs
         rw [List.length_drop] at this
@@ -143,20 +196,33 @@ theorem C07_rtps_size_each (g : Bool) (b : List Nat) (m : Msg) (h : decodeG g b 
       · simp at h
       · simp at h
 
-/-- D-wire-3 witness: 84 octets (header + eight 8-octet INFO_REPLY submessages whose locator lists overlap)
-    decode to a value holding 168 octets of locators -/
+/-- D-wire-3 regression witness: 84 octets (header + eight 8-octet INFO_REPLY submessages whose locator lists
+    overlap) decoded by `main` without the patch hold 168 octets of locators; with the patch the value is bounded -/
 def dw3Witness : List Nat :=
   [82, 84, 80, 83, 2, 3, 1, 20, 0, 0, 0, 0, 0, 0, 0, 0, 0, 0, 0, 0, 15, 1, 4, 0, 2, 0, 0, 0, 15, 1, 4, 0, 2, 0, 0, 0, 15, 1, 4,
    0, 1, 0, 0, 0, 15, 1, 4, 0, 1, 0, 0, 0, 15, 1, 4, 0, 1, 0, 0, 0, 15, 1, 4, 0, 0, 0, 0, 0, 15, 1, 4, 0, 0, 0, 0, 0, 15, 1,
    4, 0, 0, 0, 0, 0]
 theorem C07_rtps_size_counterexample :
-    ∃ m, decode dw3Witness = ok m ∧ subsSize m.subs = 168 ∧ dw3Witness.length = 84 := by
-  refine ⟨_, rfl, ?_, ?_⟩ <;> decide
+    (∃ m, decodeMain dw3Witness = ok m ∧ subsSize m.subs = 168 ∧ dw3Witness.length = 84) ∧
+    (∃ m, decode dw3Witness = ok m ∧ subsSize m.subs = 0) := by
+  refine ⟨⟨_, rfl, ?_, ?_⟩, ⟨_, rfl, ?_⟩⟩ <;> decide
+
+/-- D-wire-4 regression witness: ACKNACK with base = i64::MAX, numBits 2, both bits set: `main` decodes it and the
+    accessor of the decoded set panics; with fixes/D-wire-4.patch the submessage is rejected -/
+def dw4Witness : List Nat :=
+  [82, 84, 80, 83, 2, 3, 9, 8, 3, 3, 3, 3, 3, 3, 3, 3, 3, 3, 3, 3, 6, 1, 28, 0, 1, 2, 3, 4, 6, 7, 8, 9, 255, 255, 255, 127,
+   255, 255, 255, 255, 2, 0, 0, 0, 0, 0, 0, 192, 1, 0, 0, 0]
+theorem C07_rtps_accessor_counterexample :
+    (∃ r w set c, decodeMain dw4Witness = ok ⟨⟨[2, 3], [9, 8], [3, 3, 3, 3, 3, 3, 3, 3, 3, 3, 3, 3]⟩,
+        [.ackNack false r w set c]⟩ ∧ snsetMembers set = .panic) ∧
+    decode dw4Witness = ok ⟨⟨[2, 3], [9, 8], [3, 3, 3, 3, 3, 3, 3, 3, 3, 3, 3, 3]⟩, []⟩ := by
+  refine ⟨⟨_, _, _, _, rfl, ?_⟩, ?_⟩ <;> decide
 
 /-! non-vacuity -/
 example : ∃ m, decode (d5Witness.take 20) = ok m := ⟨_, rfl⟩
 example : (0x12 : Nat) ∉ dw3Witness := by decide
 example : FragSetPanics true (d5Witness.drop 40) :=
   ⟨2, 300, [2147483648, 0, 0, 0, 0, 0, 0, 0], _, _, _, rfl, rfl, rfl, Or.inl (by decide)⟩
+example : Cfg.fixed.ext = true ∧ Cfg.fixed.d5 = true ∧ Cfg.fixed.snchk = true := by decide
 
 end DustVerif.Wire
